@@ -69,45 +69,95 @@ def triage(ctx, alarms, monitors, stage="endpoints"):
     for a in sorted(alarms, key=lambda a: a["line"]):
         if a["mon"] not in monitors:
             continue
-        sig = {"stage": stage, "mon": a["mon"], "ep": a["ep"], "body": a["body"], "detail": a["detail"]}
+        conc = str(a["via"]).startswith("conc:")
+        if conc:
+            # a request racing with an internal step of the daemon: identified by the class of the request and the step
+            sig = {"stage": stage + "-conc", "mon": a["mon"], "event": a["via"][5:], "cls": a["cls"], "detail": a["detail"]}
+        else:
+            sig = {"stage": stage, "mon": a["mon"], "ep": a["ep"], "body": a["body"], "detail": a["detail"]}
         key = json.dumps(sig, sort_keys=True)
         if key in seen:
             continue
         seen.add(key)
         ctx.alarm(sig, "daemon endpoints: monitor %s failed for %s[%s] (gm=%s id=%s hash=%s shape=%s) in node state %s via %s: %s; res=%s on=%s (trace line %s)"
                   % (a["mon"], a["ep"], a["body"], a["gm"], a["id"], a["hash"], a["shape"], a["ns"], a["via"], a["detail"], a["res"], a["on"], a["line"]),
-                  replay=write_replay(ctx, sig, a, {"only": "%s/%s" % (a["ep"], a["body"]), "states": a["ns"]}))
+                  replay=write_replay(ctx, sig, a, {"only": "%s/%s" % (a["ep"], a["body"]), "states": a["ns"], "conc": conc}))
     if drift:
         ctx.inconclusive.append("daemon endpoints: %d differences between the daemon and DaemonEndpoints.tla (model drift / harness), first: %s"
                                 % (len(drift), drift[0]))
 
 
-def run(ctx, monitors=MONITORS):
-    q = ctx.quick
-    # 1. design level
-    r = ctx.model_check("MC_DaemonEndpoints", "MC_DaemonEndpoints.cfg", expect_ok=False, workers=4, timeout=300)
+def design_seq(ctx):
+    r = ctx.model_check("MC_DaemonEndpoints", "MC_DaemonEndpoints.cfg", name="mc-seq", expect_ok=False, workers=2, timeout=600)
     ctx.notes.append("MC_DaemonEndpoints (every endpoint x class x state, sequences <= 3): %s" %
-                     ("TLC reports %s - a handler that waits for a lock nobody will release (model counterexample, replayed below)" % r.violated
+                     ("TLC reports %s: a handler waits for a lock nobody will release (model counterexample; replayed on the real daemon below)" % r.violated
                       if r.violated else "holds"))
-    ctx.model_check("MC_DaemonEndpoints", "MC_DaemonEndpoints_around.cfg", workers=4, timeout=300)
+    ctx.model_check("MC_DaemonEndpoints", "MC_DaemonEndpoints_around.cfg", name="mc-seq-around", workers=2, timeout=600)
+
+
+def design_conc(ctx):
+    r = ctx.model_check("MC_DaemonEndpoints", "MC_DaemonEndpoints_conc.cfg", name="mc-conc", expect_ok=False, workers=2, timeout=600)
+    ctx.notes.append("MC_DaemonEndpoints_conc (one request || one internal step, interleaved at lock operations): %s" %
+                     ("TLC reports %s: a request and the daemon's own step wait for each other (model counterexample; replayed with gates below)" % r.violated
+                      if r.violated else "holds"))
+    ctx.model_check("MC_DaemonEndpoints", "MC_DaemonEndpoints_conc_around.cfg", name="mc-conc-around", workers=2, timeout=900)
+    if not ctx.quick:
+        ctx.model_check("MC_DaemonEndpoints", "MC_DaemonEndpoints_conc_abba.cfg", name="mc-conc-abba", workers=2, timeout=900)
+
+
+def run(ctx, monitors=MONITORS):
+    import threading
+    # 1. design level, in the background
+    err = []
+
+    def bg(f):
+        try:
+            f(ctx)
+        except Exception as ex:       # noqa
+            err.append(ex)
+    bin_for(ctx, PKG, TAGS)
+    ths = [threading.Thread(target=bg, args=(f,)) for f in (design_seq, design_conc)]
+    for th in ths:
+        th.start()
     # 2. real daemons
     tmp = os.path.join(ctx.work, "tmp")
     os.makedirs(tmp, exist_ok=True)
     env = {"TMPDIR": tmp}
     rp = getattr(ctx, "replay", None)
+    only_conc = only_seq = False
     if rp:
         j = json.load(open(rp))
         if j.get("only"):
             env["VERIF_ONLY"] = j["only"]
             env["VERIF_STATES"] = j.get("states", "fresh,proposal,running,stopped")
+            only_conc, only_seq = bool(j.get("conc")), not j.get("conc")
             ctx.notes.append("replaying only %s in %s" % (j["only"], env["VERIF_STATES"]))
-    trace = run_endpoint_harness(ctx, env)
-    # 3. TLC decides
-    ok, alarms, res = ctx.validate_trace("Trace_DaemonEndpoints", "Trace_DaemonEndpoints.cfg", trace, timeout=1800)
+    traces = []
+    try:
+        if not only_conc:
+            traces.append(run_endpoint_harness(ctx, env))
+        if not only_seq:
+            traces.append(run_harness(ctx, PKG, "TestVerifEndpointsConc", "endpoints-conc.ndjson", env=env,
+                                      timeout=600 if ctx.quick else 2400, tags=TAGS))
+    finally:
+        for th in ths:
+            th.join()
+    if err:
+        raise err[0]
+    # 3. TLC decides, on both recordings at once
+    trace = os.path.join(ctx.work, "endpoints-all.ndjson")
+    with open(trace, "w") as out:
+        for t in traces:
+            for line in open(t):
+                if '"ev":"Begin"' not in line:
+                    out.write(line)
+    ok, alarms, res = ctx.validate_trace("Trace_DaemonEndpoints", "Trace_DaemonEndpoints.cfg", trace, timeout=2400)
     ncall = count_lines(trace, "Call")
+    nconc = count_lines(trace, "Conc")
     if ok:
-        ctx.traces += ncall
+        ctx.traces += ncall + nconc
     ctx.extra["endpoint_calls_checked"] = ncall
+    ctx.extra["endpoint_concurrent_scenarios"] = nconc
     ctx.extra["endpoint_worlds"] = count_lines(trace, "World")
     ctx.sample({"stage": "endpoints", "trace_head": sample_lines(trace, 3)})
     triage(ctx, alarms, monitors)
